@@ -11,15 +11,29 @@ using namespace opensmt;
 static char cap[2 * MAXLEN + 8];
 static bool cap_neg;
 static int ncap;
-// replacement for opensmt::normalize (GMP text parsing + printing): records what would be handed to mpq_set_str(.., base 0)
-extern "C" void stub_normalize(char *& rat, const char * flo, bool is_neg) {
+// GMP text interface of opensmt::normalize replaced by recorders: what is parsed, in which base, and whether it is negated
+static int cap_base;
+extern "C" int stub_mpq_set_str(mpq_ptr, const char * flo, int base) {
     int i = 0;
-    for (; flo[i] != '\0'; i++) { VASSERT(i < (int)sizeof(cap) - 1, "normalize argument longer than any possible conversion"); cap[i] = flo[i]; }
+    for (; flo[i] != '\0'; i++) { VASSERT(i < (int)sizeof(cap) - 1, "text handed to GMP longer than any possible conversion"); cap[i] = flo[i]; }
     cap[i] = '\0';
-    cap_neg = is_neg;
+    cap_base = base;
     ncap++;
-    rat = nullptr;
+    return 0;
 }
+extern "C" void stub_mpq_neg(mpq_ptr, mpq_srcptr) { cap_neg = !cap_neg; }
+extern "C" void stub_mpq_unary(mpq_ptr) {}
+extern "C" int stub_gmp_asprintf(char ** out, const char *, ...) { *out = nullptr; return 0; }
+// the scratch buffer of stringToRational: fixed storage (a symbolic-size heap object is intractable), canary-checked
+#define C4 0x5A, 0x5A, 0x5A, 0x5A,
+static char scratch[16] = {C4 C4 C4 C4}; static unsigned long scratch_req; static int n_malloc;
+extern "C" void * stub_malloc(unsigned long n) {
+    VASSERT(n <= sizeof(scratch), "scratch buffer request within the harness bound");
+    VASSERT(n_malloc == 0, "one scratch buffer per conversion");
+    scratch_req = n; n_malloc++;
+    return scratch;
+}
+extern "C" void stub_free(void *) {}
 // replacement for the exception's asprintf
 extern "C" int stub_asprintf(char ** out, const char *, ...) { *out = nullptr; return 0; }
 
@@ -75,8 +89,9 @@ extern "C" void h_string_to_rational() {
         bool okn = digits_value(cap, 0, cs < 0 ? clen : cs, cn, k1);
         bool okd = cs < 0 ? true : digits_value(cap, cs + 1, clen, cd, k2);
         VASSERT(okn && okd && k1 >= 1 && (cs < 0 || k2 >= 1), "text handed to GMP is digits[/digits]");
-        VASSERT(gmp_base0_decimal(cap, 0, cs < 0 ? clen : cs) && (cs < 0 || gmp_base0_decimal(cap, cs + 1, clen)),
-                "text handed to GMP (base auto-detect) has no leading zero, so it is read as decimal");
+        VASSERT(cap_base == 10 || (cap_base == 0 && gmp_base0_decimal(cap, 0, cs < 0 ? clen : cs) && (cs < 0 || gmp_base0_decimal(cap, cs + 1, clen))),
+                "GMP reads the text as decimal (base 10, or auto-detection without a leading zero)");
+        if (n_malloc && scratch_req + 1 < sizeof(scratch)) { VASSERT(scratch[scratch_req] == 0x5A && scratch[scratch_req + 1] == 0x5A, "no write beyond the requested scratch buffer"); }
         VASSERT(cd != 0, "denominator handed to GMP is not zero");
         // reference value
         uint32_t rn = 0, rd = 1; bool rneg = (s[0] == '-');
